@@ -1,5 +1,8 @@
 import XotModel.Model.Basic
 import XotModel.Generated
 import XotModel.Model.Entity
-import XotModel.Driver.Codec
-import XotModel.Driver.Entity
+import XotModel.Model.Tree
+import XotModel.Model.Env
+import XotModel.Lemmas.Entity
+import XotModel.Props.C01
+import XotModel.Props.C14
